@@ -249,7 +249,10 @@ impl MemoryChunk {
     }
     
     fn can_allocate(&self, size: usize) -> bool {
-        self.size + size <= self.capacity
+        match self.size.checked_add(size) {
+            Some(end) => end <= self.capacity,
+            None => false,
+        }
     }
 }
 
@@ -1006,7 +1009,7 @@ impl FixedCapacityPool {
         
         // Check capacity before allocation
         let stats = self.inner.stats();
-        if stats.used_memory + aligned_size > self.max_capacity {
+        if stats.used_memory.saturating_add(aligned_size) > self.max_capacity {
             return Err(ZiporaError::resource_exhausted("Fixed capacity exceeded"));
         }
         
